@@ -112,8 +112,12 @@ pub fn snapshot(root: &Path) -> BTreeMap<String, Option<Vec<u8>>> {
                         out.insert(rel, None);
                         walk(root, &p, out);
                     }
+                    Ok(t) if !t.is_file() && !t.is_symlink() => {
+                        // FIFOs and the like are never read (that would block the harness)
+                        out.insert(rel, Some(b"<special file>".to_vec()));
+                    }
                     _ => {
-                        out.insert(rel, Some(std::fs::read(&p).unwrap_or_default()));
+                        out.insert(rel, Some(if crate::world::is_fifo(&p) { b"<special file>".to_vec() } else { std::fs::read(&p).unwrap_or_default() }));
                     }
                 }
             }
